@@ -14,7 +14,10 @@
 EXTENDS MolValues, CkbSchema, Json, IOUtils, TLC
 CONSTANTS Types,
           Deep,       \* depth handed to Base / MaxV: 0 = vectors of two items near the top, 3 = one item everywhere (smaller buffers)
-          DoEmit
+          DoEmit,
+          VarTypes,   \* types whose one-node VARIANTS (MolValues!Variants of the base value: every vector empty / one / two
+          VarDepth    \* items / swapped, every option absent, every number 0 / 1 / max, ... down to VarDepth) are emitted as further
+                      \* VALID encodings: well-formed but unusual content for the accessors, conversions and context-free verifiers
 VARIABLES ty, ph, k, todo, cur   \* type; phase; value number; values to come; the result for one value
 vars == <<ty, ph, k, todo, cur>>
 
@@ -94,8 +97,10 @@ Load == ph = "new" /\ ph' = "loaded" /\ todo' = Values(ty) /\ UNCHANGED <<ty, k,
 Pick(j) == ph = "loaded" /\ j \in 1..Len(todo) /\ ph' = "picked" /\ k' = j /\ todo' = <<todo[j]>> /\ UNCHANGED <<ty, cur>>
 Step == /\ ph = "picked" /\ ph' = "done" /\ todo' = <<>> /\ UNCHANGED <<ty, k>>
         /\ LET v == Head(todo) b == Enc(ty, v)
+               vs == IF ty \in VarTypes /\ k = 1 THEN Variants(ty, Base(ty, 1, 0), 1, 0, VarDepth) ELSE <<>>
            IN cur' = [v |-> v, enc |-> b, code |-> Code(ty, b),
-                      words |-> WordMuts(ty, b, Words(ty, v, 0), 1), resized |-> Resized(ty, b) \o Extended(ty, b, 1)]
+                      words |-> WordMuts(ty, b, Words(ty, v, 0), 1), resized |-> Resized(ty, b) \o Extended(ty, b, 1),
+                      variants |-> Tup([j \in 1..Len(vs) |-> Enc(ty, vs[j][2])])]
 Done == ph = "done"
 Next == Load \/ (\E j \in 1..8 : Pick(j)) \/ Step
 Spec == Init /\ [][Next]_vars
@@ -109,5 +114,5 @@ ExtraOK == Done => \A i \in 1..Len(cur.resized) :
 TotalOK == Done => \A i \in 1..Len(cur.words) : (cur.words[i].role = "total" /\ cur.words[i].p = 0) => cur.words[i].code = 0
 Emit == (DoEmit /\ Done) =>
           JsonSerialize(IOEnv.C16_OUT \o "/" \o ty \o "_" \o ToString(k) \o ".json",
-                        [ty |-> ty, k |-> k, enc |-> cur.enc, words |-> cur.words, resized |-> cur.resized])
+                        [ty |-> ty, k |-> k, enc |-> cur.enc, words |-> cur.words, resized |-> cur.resized, variants |-> cur.variants])
 =============================================================================
